@@ -21,25 +21,21 @@ Module FileInstance.
   Definition items : list item := [IPc proto pts1; IBlob blob; IPc proto pts2].
 
   (* what the opened reader returns for descriptor [o] *)
-  Definition read_item (rs : pr) (o : item_out) : res (list N) + res (list (list rvalue)) :=
+  Definition read_item (pr_ : list dtype) (rs : pr) (o : item_out)
+    : res (list N) + res (list (list rvalue)) :=
     match o with
     | OBlob off l => inl (snd (rrun (blob_read (pr_log_size rs) off l) rs))
-    | OPc off n => inr (snd (rrun (rbind (raw_new off n proto)
+    | OPc off n => inr (snd (rrun (rbind (raw_new off n pr_)
                                          (fun it => raw_collect 10 (pr_log_size rs) it [])) rs))
     end.
 
   (* the whole pipeline: write, flush, open, read every item back *)
-  Definition pipeline : res (list N * N * N * N * list (res (list N) + res (list (list rvalue)))) :=
-    match snd (wrun (file_prog items xml) pw0) with
-    | Ok outs =>
-        match snd (reader_open (dev_init (file_of items xml) None)) with
-        | Ok (rs, h, x) => Ok (x, h_phys_length h, h_xml_offset h, h_xml_length h, map (read_item rs) outs)
-        | Err k => Err k
-        | Panic => Panic
-        end
-    | Err k => Err k
-    | Panic => Panic
-    end.
+  Definition pipeline (pr_ : list dtype) (is : list item) (x : list N)
+    : res (list N * N * N * N * list (res (list N) + res (list (list rvalue)))) :=
+    res_bind (snd (wrun (file_prog is x) pw0)) (fun outs =>
+    res_bind (snd (reader_open (dev_init (file_of is x) None))) (fun r =>
+      let '(rs, h, x') := r in
+      Ok (x', h_phys_length h, h_xml_offset h, h_xml_length h, map (read_item pr_ rs) outs))).
 End FileInstance.
 
 (** The hypotheses of the theorem hold for this program. *)
@@ -52,10 +48,10 @@ Proof.
   - vm_compute. reflexivity.
 Qed.
 
-(** The same, end to end by evaluation of the models (two pages; XML at physical offset 1256). *)
+(** The same, end to end by evaluation of the models (two pages; XML at physical offset 1248). *)
 Example file_pipeline_computed :
-  FileInstance.pipeline =
-  Ok (FileInstance.xml, 2048, 1256, 6,
+  FileInstance.pipeline FileInstance.proto FileInstance.items FileInstance.xml =
+  Ok (FileInstance.xml, 2048, 1248, 6,
       [inr (Ok FileInstance.pts1); inl (Ok FileInstance.blob); inr (Ok FileInstance.pts2)]).
 Proof. vm_compute. reflexivity. Qed.
 
